@@ -19,6 +19,7 @@ Clauses:
   mcast  multicast(level=L) is transmitted to an address on which exactly the level-L nodes listen (pipe 0)
 """
 import hashlib
+from struct import error as struct_error
 
 from nrfsim.core import SimAbort, stream, MS
 from nrfsim.harness import Result
@@ -33,7 +34,9 @@ RULE = ("the (source, destination) pair space is enumerated: thorough walks all 
         "configuration (one scenario per source) plus 20 000 seeded pairs for each of 3 random distinct prefix/suffix sets and "
         "for allow_multicast off; quick checks the `pipes` clause exhaustively for 3 configurations and walks about 19 000 seeded "
         "pairs biased to deep/deep and cross-branch routes, about 1 900 of them again with an acknowledged message type (the frame down the path, the last "
-        "router's NETWORK_ACK back along it); multicasts from sampled senders to every level and from the master to level 0 / node 0o1 to level 1. Non-trivial: "
+        "router's NETWORK_ACK back along it); multicasts from sampled senders to every level (explicit and default) and from the master to level 0 / node 0o1 to level 1; 15 % of the nodes "
+        "constructed with another address and re-addressed, a tenth of the walks preceded by a completely failed write of the source (neighbour off the "
+        "air); at no instant may a node re-address pipe 0 while its receiver is active. Non-trivial: "
         "route of >= 2 hops; distinct = distinct (configuration, source, destination)")
 ASSUMPTIONS = ["loss-free medium, one MCU at a time (no schedule/fault dimension in this property)", "chip model M8 (address/pipe matching)"]
 CLAUSES = {"pipes": "pipe addresses never collide; pipes 1-5 differ only in their first byte; pipe 0 shared per level",
@@ -108,6 +111,12 @@ def run(scn):
         _run(scn, w, res)
     except SimAbort:
         pass
+    except (IndexError, ValueError, TypeError, KeyError, AttributeError, struct_error) as e:
+        import traceback
+        tb = traceback.format_exc()
+        if "circuitpython_nrf24l01" not in tb.strip().splitlines()[-3]:
+            raise           # not raised inside the library: a harness error
+        res.add("path", {"kind": "library_call_raised", "exc": type(e).__name__}, "a network call raised %r\n%s" % (e, tb[-800:]))
     finally:
         res.absorb_world(w)
         w.close()
@@ -119,9 +128,15 @@ def _run(scn, w, res):
     cfg = scn["cfg"]
     nodes, radios = {}, {}
     default = cfg["prefix"] == 0xCC and cfg["suffix"] == [0xC3, 0x3C, 0x33, 0xCE, 0x3E, 0xE3] and cfg["multicast"]
+    crng = stream(scn["seed"], "construct")
     for a in ADDRS:
         r = w.radio("n%d" % a)
-        n = RF24Network(*w.bus(r), a)
+        if crng.random() < 0.15:
+            # configuration history: constructed with another address (any level), re-addressed before use
+            n = RF24Network(*w.bus(r), crng.choice(ADDRS))
+            n.node_address = a
+        else:
+            n = RF24Network(*w.bus(r), a)
         if not default:
             n.address_prefix = bytearray([cfg["prefix"]])
             n.address_suffix = bytearray(cfg["suffix"])
@@ -159,12 +174,37 @@ def _run(scn, w, res):
                     res.add("pipes", {"kind": "level_not_shared"}, "level %d nodes listen on %d different pipe-0 addresses" % (lv, len(addrs0)))
         res.count("direct:pipe_pairs", 6 * len(ADDRS))
         res.nontrivial = True
+    # ---- at no instant does a node listen on another node's address: pipe 0 is never re-addressed while the receiver is active
+    rc_mark = {a: len(radios[a].rx_reconf) for a in ADDRS}
+
+    def transient(a, sig, what):
+        r = radios[a]
+        new = r.rx_reconf[rc_mark[a]:]
+        rc_mark[a] = len(r.rx_reconf)
+        for (t_, kind, old, nw, active_ns, was_en) in new:
+            if kind == "addr" and was_en:
+                res.add("hop", dict(sig, kind="listened_on_foreign_address"),
+                        "%s: node %o re-addressed pipe 0 from %s to %s while its receiver was active - until it left RX mode it listened on an address that belongs to another node"
+                        % (what, a, bytes(old).hex(), bytes(nw).hex()))
+                return True
+        return False
     # ---- walks
     walked = 0
+    frng = stream(scn["seed"], "fail_first")
     for (s, d) in scn["pairs"]:
         if res.violations:
             break
         ref = netref.path(s, d)
+        if frng.random() < 0.1:
+            # history: the source's previous transmission failed completely (that neighbour's radio was off the air)
+            nb = [x for x in ([netref.parent(s)] if s else []) + [s | (k << (3 * netref.level(s))) for k in range(1, 6) if netref.level(s) < 4] if x != ref[1]]
+            if nb:
+                f = frng.choice(nb)
+                radios[f].set_ce(False)
+                nodes[s].write(RF24NetworkFrame(RF24NetworkHeader(f, 1), b"lost"))
+                radios[f].set_ce(True)
+                radios[f].rx_fifo.clear()
+                res.count("walks_after_a_failed_write")
         w.air.trace.clear()
         frame = RF24NetworkFrame(RF24NetworkHeader(d, 1), bytes([s & 0xFF, d & 0xFF, 7]))
         nodes[s].write(frame)
@@ -190,6 +230,8 @@ def _run(scn, w, res):
                 break
             if not pipe:
                 res.add("hop", dict(sig, kind="pipe0"), "%o -> %o: hop %d arrived on pipe %r of %o" % (s, d, hops, pipe, nxt))
+                break
+            if transient(cur, sig, "%o -> %o" % (s, d)):
                 break
             nodes[nxt].update()
             if nxt == d:
@@ -282,10 +324,20 @@ def _run(scn, w, res):
                 break
             s = rng.choice(ADDRS)
             L = rng.randrange(5)
+            arg = L
             if k_ < 2:
                 s, L = [(0, 0), (0o1, 1)][k_]    # senders whose own address is the level's representative address
+                arg = L
+            elif rng.random() < 0.4:
+                L, arg = netref.level(s), None   # default: the sender's own level
             w.air.trace.clear()
-            nodes[s].multicast(b"mc", 2, L)
+            try:
+                nodes[s].multicast(b"mc", 2, arg)
+            except SimAbort:
+                raise
+            except Exception as e:
+                res.add("mcast", {"kind": "multicast_raised", "exc": type(e).__name__}, "multicast(level=%r) on node %o raised %r" % (arg, s, e))
+                break
             pk = [t for t in w.air.trace if not t["ack"]]
             got = sorted(by_name[n] for t in pk for (n, oc) in t["rx"] if oc == "stored")
             want = sorted(a for a in ADDRS if netref.level(a) == L and a != s)
